@@ -502,8 +502,7 @@ class KafkaCodec(object):
                     MinVersion => int16
                     MaxVersion => int16
         """
-        ((correlation_id, error_code), cur) = relative_unpack(">ii", data, 0)
-        data = data[2:]  # move past correlation_id and error_code
+        ((correlation_id, error_code, _count), cur) = relative_unpack(">ihi", data, 0)
 
         api_versions = []
 
